@@ -22,7 +22,7 @@ sys.path.insert(0, ROOT)
 
 from pyvc import sym, interp, models, contract, solve, loader, bounded  # noqa: E402
 
-CONTRACT_MODULES = ["der", "util", "numbertheory", "ellipticcurve", "ecdsa_", "keys", "ecdh", "rfc6979", "curves"]
+CONTRACT_MODULES = ["der", "util", "numbertheory", "ellipticcurve", "ecdsa_", "keys", "rfc6979", "ecdh", "keys_load", "curves"]
 
 
 def load_all():
@@ -202,6 +202,12 @@ def run_bounded(P, R, tier, seed):
             a = R.obl.get(name)
             any_open = any(x["ok"] != x["n"] for x in R.obl.values())
             if a is not None and a["ok"] == a["n"] and a["n"] > 0:
+                kf = match_known(load_known(), R.prop, name, args)
+                if kf is not None:
+                    # the clause is proved against a callee contract that a known finding contradicts (inherited finding)
+                    print("KNOWN-FINDING: property=%s %s [%s] obligation %s, witness %s" % (R.prop, kf["what"][:300], kf.get("id", ""), name, {k: bounded.show(v) for k, v in args.items()}))
+                    R.known.append(dict(finding=kf.get("id"), obligation=name, witness={k: bounded.show(v) for k, v in args.items()}, inherited=True))
+                    continue
                 if not any_open:
                     # every obligation is discharged, yet the real code violates one: the engine (or an axiom) is wrong
                     R.errors.append("UNSOUND ENGINE: obligation %s was discharged but the real function violates it on %s (%s)"
@@ -294,6 +300,7 @@ def main():
     PROPS = load_all()
     P = PROPS[a.prop]
     R = Result()
+    R.prop = a.prop
 
     # 0. the verified text is the code that runs
     try:
